@@ -50,7 +50,10 @@ for f in conflicted():
         for st in (2, 1, 3):
             t = tempfile.NamedTemporaryFile('w', delete=False, suffix='.m'); t.write(show(st, f)); t.close(); tmp.append(t.name)
         r = subprocess.run(['git', 'merge-file', '--union', '-p'] + tmp, capture_output=True, text=True)
-        open(f, 'w').write(r.stdout)
+        out = r.stdout
+        if f == 'tools/lib/extract.py':      # per-branch registry literals overwrite one another: keep only the automatic one
+            out = '\n'.join(l for l in out.split('\n') if not l.startswith("EXTRACTORS = {'"))
+        open(f, 'w').write(out)
         for t in tmp: os.unlink(t)
     else:
         print('MANUAL:', f); continue
